@@ -548,6 +548,8 @@ package app
 //@   ensures one-instance: spawned(fntag("(*app.ProjectRunner).runProcess$1")) == old(spawned(fntag("(*app.ProjectRunner).runProcess$1"))) + 1
 //@   ensures others-kept: forall k string :: k != config.ReplicaName ==> (k in p.runningProcesses <==> old(k in p.runningProcesses)) && p.runningProcesses[k] == old(p.runningProcesses[k])
 //@   ensures nolocks: noLocks() && runnerWF(p)
+//@   assigns p.runningProcesses[config.ReplicaName], config.RestartPolicy.ExitOnEnd, spawned[*], ctxCount(),
+//@           types.ProcessState.SystemTime[*], types.ProcessState.Age[*], types.ProcessState.Name[*], types.ProcessState.Mem[*], types.ProcessState.CPU[*], types.ProcessState.IsRunning[*], types.ProcessState.IsElevated[*], types.ProcessState.PasswordProvided[*]
 
 // the project's process map is keyed by replica name (established by the loader, kept by scaling)
 //@ define projKeyed(p *ProjectRunner) bool = forall n string :: n in p.project.Processes ==> p.project.Processes[n].ReplicaName == n
